@@ -110,3 +110,121 @@ def same_record(it, a, b, fields):
             elif r is not True:
                 return False, f"field {f}: {va!r} became {vb!r}"
     return (z3.And(*conj) if conj else True), ""
+
+
+# ---- msgpack trees against the published format (spec/wire_spec.py) ------------------------------------------------------------------
+import importlib.util as _ilu
+import os as _os
+
+_sp = _ilu.spec_from_file_location("wire_spec", _os.path.join(_os.path.dirname(_os.path.dirname(_os.path.abspath(__file__))), "spec", "wire_spec.py"))
+W = _ilu.module_from_spec(_sp)
+_sp.loader.exec_module(W)
+
+
+def blob(tree):
+    """A nested packed blob of the spec (never adds path assumptions: used for expected values only)."""
+    return MPBytes(tree)
+
+
+class BigMag:
+    """Spec leaf: a msgpack bin holding the big-endian magnitude of integer term `a` (any length that holds it: leading zero bytes decode alike)."""
+
+    def __init__(self, a):
+        self.a = a
+
+
+def leaf_eq(it, a, b):
+    """(z3 Bool | bool, complaint) for two msgpack leaves: same msgpack type and same content."""
+    if isinstance(b, BigMag):
+        from pyvc.models.ints import from_bytes_big, _axioms
+
+        _axioms()
+        ua = it.unbase(a)
+        if isinstance(ua, SBytes):
+            return from_bytes_big(ua.t) == b.a, "the big-endian magnitude bytes do not decode to the integer's magnitude"
+        if isinstance(ua, (bytes, bytearray)):
+            return z3.IntVal(int.from_bytes(ua, "big")) == b.a, "magnitude bytes"
+        return False, f"msgpack {type(ua).__name__} where the format has bin (magnitude bytes)"
+    def kind(v):
+        v = it.unbase(v)
+        if v is None:
+            return "nil"
+        if isinstance(v, (bool, SBool)):
+            return "bool"
+        if isinstance(v, (int, SInt)):
+            return "int"
+        if isinstance(v, float):
+            return "float"
+        if isinstance(v, (str, SStr)):
+            return "str"
+        if isinstance(v, (bytes, bytearray, SBytes)):
+            return "bin"
+        if isinstance(v, MPBytes):
+            return "bin"
+        return type(v).__name__
+
+    ka, kb = kind(a), kind(b)
+    if ka != kb:
+        return False, f"msgpack type {ka} where the format has {kb}"
+    a, b = it.unbase(a), it.unbase(b)
+    if ka == "nil":
+        return True, ""
+    if ka == "bool":
+        return it.zbool(a) == it.zbool(b), "boolean differs"
+    if ka == "int":
+        return it.zint(a) == it.zint(b), "integer differs"
+    if ka == "str":
+        return it.zstr(a) == it.zstr(b), "text differs"
+    if ka == "float":
+        return (a == b or (a != a and b != b)), "float differs"
+    if isinstance(a, MPBytes) or isinstance(b, MPBytes):
+        if isinstance(a, MPBytes) and isinstance(b, MPBytes):
+            return tree_eq(it, a.tree, b.tree)
+        ca = a.concrete if isinstance(a, MPBytes) else a
+        cb = b.concrete if isinstance(b, MPBytes) else b
+        return (ca is not None and ca == cb), "bytes differ"
+    if isinstance(a, (bytes, bytearray)) and isinstance(b, (bytes, bytearray)):
+        return bytes(a) == bytes(b), f"bytes differ: {bytes(a)[:20]!r} vs {bytes(b)[:20]!r}"
+    if isinstance(a, SBytes) and isinstance(b, SBytes):
+        return a.t == b.t, "byte string differs"
+    return False, f"bytes of different representation: {a!r} vs {b!r}"
+
+
+def tree_eq(it, a, b, where="value"):
+    """(z3 Bool | bool, complaint): msgpack tree `a` (produced by the code) equals tree `b` (the published format)."""
+    if a[0] != b[0]:
+        return False, f"{where}: msgpack {a[0]} where the format has {b[0]}"
+    if a[0] == "leaf":
+        g, why = leaf_eq(it, a[1], b[1])
+        return g, f"{where}: {why}"
+    if a[0] == "arr":
+        if len(a[1]) != len(b[1]):
+            return False, f"{where}: array of {len(a[1])} where the format has {len(b[1])}"
+        conj = []
+        for i, (x, y) in enumerate(zip(a[1], b[1])):
+            g, why = tree_eq(it, x, y, f"{where}[{i}]")
+            if g is False:
+                return False, why
+            if g is not True:
+                conj.append(g)
+        return (z3.And(*conj) if conj else True), f"{where}: an element differs"
+    if a[0] == "map":
+        if len(a[1]) != len(b[1]):
+            return False, f"{where}: map size"
+        conj = []
+        for i, ((ka, va), (kb, vb)) in enumerate(zip(a[1], b[1])):
+            for x, y in ((ka, kb), (va, vb)):
+                g, why = tree_eq(it, x, y, f"{where}{{{i}}}")
+                if g is False:
+                    return False, why
+                if g is not True:
+                    conj.append(g)
+        return (z3.And(*conj) if conj else True), f"{where}: a map entry differs"
+    if a[0] == "ext":
+        if a[1] != b[1]:
+            return False, f"{where}: extension type {a[1]} where the format has {b[1]}"
+        pa, pb = a[2], b[2]
+        if isinstance(pa, MPBytes) and isinstance(pb, MPBytes):
+            return tree_eq(it, pa.tree, pb.tree, where + ".ext")
+        return leaf_eq(it, pa, pb)
+    return False, f"{where}: unknown node"
